@@ -88,6 +88,50 @@ pub fn run(ctx: &Ctx) -> CheckResult {
             }
         }
     }
+    // torn writes between two sources of the same format: the head of one script followed by the tail
+    // of another, cut at statement boundaries.  Sources of one format share their header, so this
+    // recombines statements of different scripts into programs no test contains.
+    let n_torn = if quick { 8 } else { 120 };
+    let mut n_torn_total = 0usize;
+    for (bi, c) in bases.iter().enumerate() {
+        let ii = match c.inputs.iter().position(|i| i.path == scen::SRC) {
+            Some(k) => k,
+            None => continue,
+        };
+        let text = match &c.inputs[ii].base {
+            Base::Text(t) => t.as_bytes().to_vec(),
+            _ => continue,
+        };
+        let fmt = items[bi].format.clone();
+        let peers: Vec<usize> = (0..items.len()).filter(|&j| j != bi && items[j].format == fmt).collect();
+        if peers.is_empty() {
+            continue;
+        }
+        let cuts = |t: &[u8]| -> Vec<usize> { (1..t.len()).filter(|&k| matches!(t[k - 1], b';' | b'\n' | b'{' | b'}' | b',' | b'(')).collect() };
+        let my_cuts = cuts(&text);
+        if my_cuts.is_empty() {
+            continue;
+        }
+        let mut r = Rng::new(rng::mix(ctx.seed, &c.name, 44));
+        let mut vs = vec![];
+        for _ in 0..n_torn {
+            let pj = *r.pick(&peers);
+            let other = items[pj].source.clone().unwrap_or_default().into_bytes();
+            let oc = cuts(&other);
+            if oc.is_empty() {
+                continue;
+            }
+            // bias both cut points towards the script body (the last 60% of the file)
+            let at = my_cuts[(my_cuts.len() * 2 / 5 + r.below((my_cuts.len() - my_cuts.len() * 2 / 5) as u64) as usize).min(my_cuts.len() - 1)];
+            let from = oc[(oc.len() * 2 / 5 + r.below((oc.len() - oc.len() * 2 / 5) as u64) as usize).min(oc.len() - 1)];
+            vs.push(Corruption { ops: vec![crate::case::CorruptOp::Trunc { at }, crate::case::CorruptOp::Ins { off: at, bytes: other[from..].to_vec() }], off: at, kind: "torn-with-peer-source" });
+        }
+        n_torn_total += vs.len();
+        *kinds.entry("torn-with-peer-source").or_insert(0) += vs.len() as u64;
+        for ch in vs.chunks(48) {
+            work.push((bi, ii, ch.to_vec()));
+        }
+    }
     let n_selected: usize = work.iter().map(|w| w.2.len()).sum();
     let (_r, st, f2, h2) = par_map(ctx, &work, |w, _, (bi, ii, vs)| {
         for c in vs {
@@ -126,6 +170,7 @@ pub fn run(ctx: &Ctx) -> CheckResult {
     extra.insert("scenarios_attacked_in_storage".into(), json!(order.len()));
     extra.insert("single_fault_space_size_of_attacked_files".into(), json!(n_space));
     extra.insert("storage_faults_selected".into(), json!(n_selected));
+    extra.insert("torn_mixes_of_two_corpus_sources".into(), json!(n_torn_total));
     extra.insert("storage_fault_kinds_selected".into(), json!(kinds));
     extra.insert("scenarios_attacked_at_read_time".into(), json!(rt_items.len()));
     let samples: Vec<_> = work.iter().step_by((work.len() / 3).max(1)).take(3).map(|(bi, ii, vs)| json!({"scenario": bases[*bi].name, "file": bases[*bi].inputs[*ii].path, "command": bases[*bi].steps[0].argv.join(" "), "corruption": vs[0].ops})).collect();
